@@ -1,7 +1,172 @@
 import Aqv.Base.Proto
-open Aqv Aqv.Proto
+import Aqv.Base.Keccak
+import Aqv.Model.PowGen
+open Aqv Aqv.Proto Aqv.Consensus Aqv.Pow
 
-/-- stub driver for C14 (answers every case line with "bad-op"); replaced when the property is built. -/
-def handle (l : String) : String := let _ := l; "bad-op\tagree"
+/-! model driver for C14.  The hash primitives are evaluated by the harness with the real Go code and arrive as a table
+    `<version>:<data hex>=<value hex>` (crypto.VersionHash) / `e:<digest>/<result>` (hashimoto for this header); Keccak-256 is
+    computed here (Aqv.Base.Keccak), the RLP encoding of the header here as well (Aqv.Model.Rlp). -/
+
+def natOfHex (s : String) : Option Nat :=
+  if s.isEmpty then none
+  else s.toList.foldl (fun acc c => match acc, hexVal c with
+    | some a, some v => some (a * 16 + v)
+    | _, _ => none) (some 0)
+
+def intOfHex (s : String) : Option Int :=
+  match s.toList with
+  | '-' :: rest => (natOfHex (String.ofList rest)).map (fun n => - (n : Int))
+  | _ => (natOfHex s).map (fun n => (n : Int))
+
+def bytesOpt (s : String) : Option Bytes := if s == "-" then some [] else bytesOfHex s
+
+def parseCfg (s : String) : Option (Config × Config) :=
+  match s.toList with
+  | '@' :: rest =>
+    let name := String.ofList rest
+    match Gen.config? name, Spec.config? name with
+    | some a, some b => some (a, b)
+    | _, _ => none
+  | 'c' :: rest =>
+    match (String.ofList rest).splitOn "/" with
+    | [cid, fs] => do
+      let chainId ← cid.toNat?
+      let forks ← if fs.isEmpty then some [] else (fs.splitOn ",").mapM (fun kv =>
+        match kv.splitOn "=" with
+        | [k, v] => do pure ((← k.toNat?), (← v.toNat?))
+        | _ => none)
+      let c : Config := { chainId, forks }
+      pure (c, c)
+    | _ => none
+  | _ => none
+
+structure Table where
+  vh : List (Nat × Bytes × Bytes)
+  eth : Option (Bytes × Bytes)
+
+def parseTable (s : String) : Option Table :=
+  if s == "-" then some { vh := [], eth := none }
+  else (s.splitOn ",").foldlM (fun (t : Table) (e : String) =>
+    match e.splitOn "=" with
+    | [k, v] =>
+      match k.splitOn ":" with
+      | [vs, ds] => do
+        let ver ← vs.toNat?
+        let d ← bytesOpt ds
+        let val ← bytesOpt v
+        pure { t with vh := (ver, d, val) :: t.vh }
+      | _ => none
+    | [k] =>
+      match k.splitOn ":" with
+      | ["e", dr] =>
+        match dr.splitOn "/" with
+        | [d, r] => do pure { t with eth := some ((← bytesOpt d), (← bytesOpt r)) }
+        | _ => none
+      | _ => none
+    | _ => none) { vh := [], eth := none }
+
+def Table.lookup (t : Table) (v : Nat) (d : Bytes) : Option Bytes :=
+  (t.vh.find? (fun e => e.1 == v && e.2.1 == d)).map (·.2.2)
+
+/-- the hash primitives backed by the table (missing entries are detected by the caller before the model runs). -/
+def hashesOf (t : Table) : Hashes :=
+  { keccak := Keccak.keccak256
+    vh := fun v d => (t.lookup v d).getD []
+    ethash := fun _ _ _ => t.eth.getD ([], []) }
+
+def showSeal : Option SealErr → String
+  | none => "ok"
+  | some .panic => "panic"
+  | some e => "err " ++ e.name
+
+def showOut : Out Bytes → String
+  | .ok b => hexOrDash b
+  | .panic => "panic"
+
+def verdict' (model go : String) (specAcceptsGo : Bool) (why : String) : String :=
+  if !specAcceptsGo then model ++ "\tspec-reject:" ++ why
+  else if model == go then model ++ "\tagree"
+  else model ++ "\tspec-ok"
+
+def parseFields (fs : List String) : Option HeaderFields :=
+  match fs with
+  | [a, b, c, d, e, f, g, h, i, j, k, l, m, n, o] => do
+    pure { parentHash := (← bytesOpt a), uncleHash := (← bytesOpt b), coinbase := (← bytesOpt c), root := (← bytesOpt d),
+           txHash := (← bytesOpt e), receiptHash := (← bytesOpt f), bloom := (← bytesOpt g), difficulty := (← natOfHex h),
+           number := (← natOfHex i), gasLimit := (← natOfHex j), gasUsed := (← natOfHex k), time := (← natOfHex l),
+           extra := (← bytesOpt m), mixDigest := (← bytesOpt n), nonce := (← bytesOpt o) }
+  | _ => none
+
+/-- table entries the hash computations of a header need (argon2id versions only). -/
+def neededFor (t : Table) (v : Nat) (data : Bytes) : Bool := !(v == 2 || v == 3 || v == 4) || (t.lookup v data).isSome
+
+/-- Hash(), HashNoNonce(), MinerHash for a header carrying version `v`. -/
+def hashTriple (t : Table) (v : Nat) (h : HeaderFields) : Option String :=
+  let Hs := hashesOf t
+  let encAll := Rlp.enc (.list (h.itemsNoNonce ++ [.str h.mixDigest, .str h.nonce]))
+  let encNo := Rlp.enc (.list h.itemsNoNonce)
+  if !neededFor t v encAll || (v == 3 && !neededFor t 3 encNo) then none
+  else
+    let hash := headerHash Hs v h
+    let hnn := hashNoNonce Hs v h
+    let miner : Out Bytes := match hnn with
+      | .ok x =>
+        let seed := sealSeed x (beNat h.nonce)
+        if !neededFor t v seed then .ok [0xde, 0xad] else versionHash Hs v seed
+      | .panic => .panic
+    some (showOut hash ++ " " ++ showOut hnn ++ " " ++ showOut miner)
+
+def handle (l : String) : String :=
+  let (inp, go) := splitCase l
+  match fields inp with
+  | ["ver", cs, hs] =>
+    match parseCfg cs, hs.toNat? with
+    | some (ci, csp), some height =>
+      let m := toString (getBlockVersion ci height)
+      let specOk := go == toString (versionSpec (csp.getHF 5) (csp.getHF 8) (csp.getHF 9) height)
+      verdict' m go specOk "version-not-determined-by-the-fork-schedule"
+    | _, _ => "bad-op\tagree"
+  | ["seal", ns, ds, ms, nos, vs, hs, ts] =>
+    match ns.toNat?, intOfHex ds, bytesOpt ms, nos.toNat?, vs.toNat?, bytesOpt hs, parseTable ts with
+    | some number, some difficulty, some mixDigest, some nonce, some version, some hnn, some t =>
+      let s : SealInput := { number, difficulty, mixDigest, nonce, version, hnn }
+      let needs := decide (number % two64 / 30000 < 2048) && decide (0 < difficulty)
+      if needs && (version == 1 && t.eth.isNone || !neededFor t version (sealSeed hnn nonce)) then "table-miss\tspec-ok"
+      else
+        let Hs := hashesOf t
+        let m := showSeal (verifySeal Gen.powParams Hs s)
+        let specOk := (go == "ok") == decide (SealValid Hs s)
+        verdict' m go specOk "seal-accepted-iff-it-meets-the-target-fails"
+    | _, _, _, _, _, _, _ => "bad-op\tagree"
+  | ["sealn", nn, ns, ds, ms, nos, vs, hs, ts] =>
+    -- the target numerator replaced by N (overlay accessor VerifSetMaxUint256): the comparison at the exact boundary
+    match natOfHex nn, ns.toNat?, intOfHex ds, bytesOpt ms, nos.toNat?, vs.toNat?, bytesOpt hs, parseTable ts with
+    | some numer, some number, some difficulty, some mixDigest, some nonce, some version, some hnn, some t =>
+      let s : SealInput := { number, difficulty, mixDigest, nonce, version, hnn }
+      if !neededFor t version (sealSeed hnn nonce) then "table-miss\tspec-ok"
+      else
+        let Hs := hashesOf t
+        let m := showSeal (verifySeal { Gen.powParams with maxUint256 := numer } Hs s)
+        let specOk := (go == "ok") == decide (SealValidP { Spec.powParams with maxUint256 := numer } Hs s)
+        verdict' m go specOk "seal-accepted-iff-hash-at-most-target-fails"
+    | _, _, _, _, _, _, _, _ => "bad-op\tagree"
+  | "hh" :: cs :: rest =>
+    match parseCfg cs, parseFields rest.dropLast, rest.getLast?.bind parseTable with
+    | some (ci, csp), some h, some t =>
+      let v := getBlockVersion ci h.number
+      let vs := versionSpec (csp.getHF 5) (csp.getHF 8) (csp.getHF 9) h.number
+      match hashTriple t v h, hashTriple t vs h with
+      | some m, some ms =>
+        verdict' (toString v ++ " " ++ m) go (go == toString vs ++ " " ++ ms) "hashes-not-computed-with-the-version-of-the-height"
+      | _, _ => "table-miss\tspec-ok"
+    | _, _, _ => "bad-op\tagree"
+  | "hv" :: vs :: rest =>
+    match vs.toNat?, parseFields rest.dropLast, rest.getLast?.bind parseTable with
+    | some v, some h, some t =>
+      match hashTriple t v h with
+      | some m => verdict' m go (go == m) "hashes-not-computed-with-the-header-version"
+      | none => "table-miss\tspec-ok"
+    | _, _, _ => "bad-op\tagree"
+  | _ => "bad-op\tagree"
 
 def main : IO Unit := runLines handle
